@@ -204,6 +204,83 @@ def search(rep: C.Report, tier: str, broken):
                 if bad:
                     viol(f"after integrate() the same object no longer represents the same polynomial: {bad}",
                          {"M": M, "N": N, "direction": d, "endpoints": e, "basis": basis, "differing": bad}, f"C16:reuse-after-integrate:{basis}")
+    # mixed-direction basis change in ONE call (some axes Cardinal -> Chebyshev while others go Chebyshev -> Cardinal): every axis must be converted
+    # in its own direction.  Oracle: grid values of an explicit tensor polynomial, Chebyshev coefficients by solving T c = values with the T_n(x_i)
+    # matrices built here; integrate(axis=k) with the other axes left in the Chebyshev basis against the closed-form sqrt(1-x^2) moments
+    def cheb_T(g, d, e):
+        x = g.getCompactCoordinates(e, d)
+        nmax = {"z": g.M, "pz": g.N, "pp": g.N - 1}[d]
+        V = np.cos(np.arange(nmax + 1)[None, :] * np.arccos(x)[:, None])  # T_n(x_i), n = 0..nmax
+        if e:
+            return V
+        if d == "pp":
+            return V[:, 1:] - 1.0  # restricted to vanish at x = +1
+        return V[:, 2:] - np.where(np.arange(2, nmax + 1) % 2 == 0, 1.0, x[:, None])  # restricted to vanish at x = +-1
+
+    def to_basis(vals, Ts, basis):
+        out = vals
+        for ax, bs in enumerate(basis):
+            if bs == "Chebyshev":
+                out = np.moveaxis(np.linalg.solve(Ts[ax], np.moveaxis(out, ax, 0).reshape(Ts[ax].shape[0], -1)).reshape(np.moveaxis(out, ax, 0).shape), 0, ax)
+        return out
+
+    def outer(vs):
+        out = vs[0]
+        for v in vs[1:]:
+            out = out[..., None] * v
+        return out
+
+    for (M, N), dirs, e in itertools.product(((3, 5), (6, 7)) if tier == "quick" else ((3, 5), (6, 7), (4, 9), (9, 5), (12, 11)), (("z", "pz"), ("z", "pz", "pp")), (False, True)):
+        g = _grid(M, N)
+        rank = len(dirs)
+        Ts = [cheb_T(g, d, e) for d in dirs]
+        xsk = [g.getCompactCoordinates(e, d) for d in dirs]
+        # sum of two products of 1-D polynomials of admissible degree (all sizes here have n >= 3, so degree <= n is also inside the quadrature's class)
+        terms = []
+        for _ in range(2):
+            fac = []
+            for d in dirs:
+                n = {"z": M, "pz": N, "pp": N - 1}[d]
+                vanish = np.polynomial.Polynomial([1]) if e else (np.polynomial.Polynomial([1, 0, -1]) if d != "pp" else np.polynomial.Polynomial([1, -1]))
+                fac.append(np.polynomial.Polynomial([r.uniform(-1, 1) for _ in range(r.randint(0, n - vanish.degree()) + 1)]) * vanish)
+            terms.append(fac)
+        vals = sum(outer([q(x) for q, x in zip(fac, xsk)]) for fac in terms)
+        info = {"M": M, "N": N, "directions": dirs, "endpoints": e, "polynomial": "sum over terms of the product over axes of the 1-D polynomials below",
+                "terms_coeffs_low_to_high": [[q.coef.tolist() for q in fac] for fac in terms]}
+        allb = list(itertools.product(("Cardinal", "Chebyshev"), repeat=rank))
+        for F, G in itertools.product(allb, allb):
+            ups = sum(f == "Cardinal" and t == "Chebyshev" for f, t in zip(F, G))
+            downs = sum(f == "Chebyshev" and t == "Cardinal" for f, t in zip(F, G))
+            if not (ups and downs) and not (downs and "Chebyshev" in G):
+                continue  # uniform-direction calls are covered above
+            rep.case(key=("mixed-changebasis", M, N, rank, e, F, G))
+            rep.count("mixed-direction changeBasis")
+            P = Polynomial(to_basis(vals, Ts, F).copy(), g, F, dirs, e)
+            P.changeBasis(G)
+            want = to_basis(vals, Ts, G)
+            got = np.asarray(P.coefficients)
+            err = float(np.max(np.abs(got - want))) if got.shape == want.shape else math.inf
+            if not err <= 1e-9 * (np.max(np.abs(want)) + 1):
+                where = [i for i, t in enumerate(G) if t == "Cardinal" and F[i] == "Chebyshev"]
+                viol("one changeBasis call with mixed directions is not the axis-by-axis conversion (axes that became Cardinal do not hold the grid values)",
+                     dict(info, from_basis=F, to_basis=G, axes_chebyshev_to_cardinal=where, max_abs_error=err, largest_expected=float(np.max(np.abs(want))),
+                          how="Polynomial(coeffs in from_basis, grid, from_basis, directions, endpoints).changeBasis(to_basis)"), "C16:mixed-changebasis")
+        for F, k in itertools.product(allb, range(rank)):
+            if F[k] != "Chebyshev" or all(F[i] == "Cardinal" for i in range(rank) if i != k):
+                continue
+            rep.case(key=("mixed-integrate", M, N, rank, e, F, k))
+            rep.count("integrate with other axes Chebyshev")
+            w = np.sqrt(1 - xsk[k] ** 2).reshape([-1 if i == k else 1 for i in range(rank)])
+            res = Polynomial(to_basis(vals, Ts, F).copy(), g, F, dirs, e).integrate(axis=k, weight=w)
+            rest = [i for i in range(rank) if i != k]
+            card = sum(sum(ck * _sqrtweight_moment(j) for j, ck in enumerate(fac[k].coef)) * outer([fac[i](xsk[i]) for i in rest]) for fac in terms)
+            want = to_basis(card, [Ts[i] for i in rest], [F[i] for i in rest])
+            got = np.asarray(res.coefficients)
+            err = float(np.max(np.abs(got - want))) if got.shape == want.shape else math.inf
+            if tuple(res.basis) != tuple(F[i] for i in rest) or not err <= 1e-9 * (np.max(np.abs(want)) + 1):
+                viol("integrate(axis=k) of a polynomial whose other axes are in the Chebyshev basis is not the exact integral in that basis",
+                     dict(info, basis=F, axis=k, weight="sqrt(1-x_k^2)", result_basis=list(res.basis), max_abs_error=err, largest_expected=float(np.max(np.abs(want)))),
+                     "C16:mixed-integrate")
     # multi-axis: operations along different axes act independently, commute and are linear
     for M, N in ((4, 5), (6, 3)) if tier == "quick" else ((4, 5), (6, 3), (9, 7), (3, 9)):
         g = _grid(M, N)
